@@ -116,10 +116,10 @@ func checkC34(c *Ctx) (string, []string) {
 		c.Check(len(same) == 1, "C34.epoch-rotation", "internal/statistics.UpdateValidatorActivityStatistics · epoch test", f.Pos(),
 			"branches on GetEpochIndex(posterior τ) == GetEpochIndex(prior τ)", "no branch on equality of prior and posterior epoch index (conditions: "+strings.Join(condShapes(f), " ; ")+")")
 		want := map[string][]edge{
-			"(*internal/blockchain.PosteriorStates).SetPiCurrent(" + post + ", " + priorPi + ".ValsCurr)":                                               same,
-			"(*internal/blockchain.PosteriorStates).SetPiLast(" + post + ", " + priorPi + ".ValsLast)":                                                  same,
+			"(*internal/blockchain.PosteriorStates).SetPiCurrent(" + post + ", " + priorPi + ".ValsCurr)":                                                       same,
+			"(*internal/blockchain.PosteriorStates).SetPiLast(" + post + ", " + priorPi + ".ValsLast)":                                                          same,
 			"(*internal/blockchain.PosteriorStates).SetPiCurrent(" + post + ", make([]internal/types.ValidatorActivityRecord, internal/types.ValidatorsCount))": diff,
-			"(*internal/blockchain.PosteriorStates).SetPiLast(" + post + ", " + priorPi + ".ValsCurr)":                                                  diff,
+			"(*internal/blockchain.PosteriorStates).SetPiLast(" + post + ", " + priorPi + ".ValsCurr)":                                                          diff,
 		}
 		seen := map[string]bool{}
 		allInstrs(f, func(in ssa.Instruction) {
